@@ -660,7 +660,11 @@ impl RADAU {
                 let r = cont[i] / scal[i];
                 err += r * r;
             }
-            err = (err / n as Float).sqrt().max(1e-10);
+            // (a NaN norm must stay NaN so that the step is rejected: `max` would drop it)
+            err = (err / n as Float).sqrt();
+            if !err.is_nan() {
+                err = err.max(1e-10);
+            }
 
             // Optional refinement on first/rejected step
             if err >= 1.0 && (first || reject) {
@@ -682,7 +686,10 @@ impl RADAU {
                     let r = cont[i] / scal[i];
                     err += r * r;
                 }
-                err = (err / n as Float).sqrt().max(1e-10);
+                err = (err / n as Float).sqrt();
+                if !err.is_nan() {
+                    err = err.max(1e-10);
+                }
             }
 
             // --- Computation of hnew ---
